@@ -11,23 +11,30 @@ open Drx Drx.Gen Drx.Lscr
 @[simp] theorem Total.add_grb (a b : Total) : (a + b).grb = a.grb + b.grb := rfl
 @[simp] theorem Total.add_fnames (a b : Total) : (a + b).fnames = a.fnames + b.fnames := rfl
 @[simp] theorem Total.add_frb (a b : Total) : (a + b).frb = a.frb + b.frb := rfl
+@[simp] theorem Total.add_tables (a b : Total) : (a + b).tables = a.tables + b.tables := rfl
+@[simp] theorem Total.add_opcodes (a b : Total) : (a + b).opcodes = a.opcodes + b.opcodes := rfl
 
 /-- a function record that was read completely lies inside the data: 42 bytes from `idx` -/
-theorem readFrb_range {ctx : Ctx} {d : Bytes} {idx : Int} {r : FrbRec} (h : readFrb ctx d idx = .ok r) :
+theorem readFrb_range {ctx : Ctx} {d : Bytes} {idx : Int} {dc : Nat} {r : FrbRec} (h : readFrb ctx d idx dc = .ok r) :
     -(d.length : Int) ≤ idx ∧ idx + 42 ≤ d.length := by
   unfold readFrb at h
-  simp only [bind, Except.bind] at h
-  cases h0 : getSI 2 d idx with
-  | error e => rw [h0] at h; cases h
-  | ok v0 =>
-    have a := getSI_ok_range (by decide) h0
-    rw [h0] at h
-    simp only at h
-    repeat (split at h; · cases h)
-    have h38 : ∃ v, getSI 4 d (idx + 38) = .ok v := ⟨_, by assumption⟩
-    obtain ⟨v, h38⟩ := h38
-    have b := getSI_ok_range (by decide) h38
-    omega
+  obtain ⟨v0, h0, h⟩ := bind_ok h
+  have a := getSI_ok_range (by decide) h0
+  obtain ⟨_, _, h⟩ := bind_ok h
+  obtain ⟨_, _, h⟩ := bind_ok h
+  obtain ⟨_, _, h⟩ := bind_ok h
+  obtain ⟨_, _, h⟩ := bind_ok h
+  obtain ⟨_, _, h⟩ := bind_ok h
+  obtain ⟨_, _, h⟩ := bind_ok h
+  obtain ⟨_, _, h⟩ := bind_ok h
+  obtain ⟨_, _, h⟩ := bind_ok h
+  obtain ⟨_, _, h⟩ := bind_ok h
+  obtain ⟨_, _, h⟩ := bind_ok h
+  obtain ⟨_, _, h⟩ := bind_ok h
+  obtain ⟨_, _, h⟩ := bind_ok h
+  obtain ⟨_, h38, h⟩ := bind_ok h
+  have b := getSI_ok_range (by decide) h38
+  omega
 
 /-- the container fields of the per-function counters are zero -/
 theorem parseFuncS_container (ctx : Ctx) (d : Bytes) (idx : Int) (fs : FrbState) :
@@ -111,5 +118,177 @@ theorem lscr_container_linear (codec : Codec) (d : Bytes) (names : List Str) :
               have h5 := fun ctx fs => (hp ctx fs).2.2.2.2
               split <;> split <;> simp <;>
                 (and_intros <;> first | omega | exact Nat.le_trans (h5 _ _) (by omega))
+
+
+/-! ### with the running totals (repairs F103): name tables and bytecode of ALL handlers together fit in the data -/
+
+theorem localNamesSteps_le (ctx : Ctx) (d : Bytes) (off : Int) (k nl : Nat) : localNamesSteps ctx d off k nl ≤ k := by
+  induction k generalizing nl with
+  | zero => simp [localNamesSteps]
+  | succ k ih =>
+    unfold localNamesSteps
+    split
+    · omega
+    · split
+      · omega
+      · have := ih (nl + 1); omega
+
+theorem paramNamesSteps_le (ctx : Ctx) (d : Bytes) (off : Int) (k nl : Nat) : paramNamesSteps ctx d off k nl ≤ k := by
+  induction k generalizing nl with
+  | zero => simp [paramNamesSteps]
+  | succ k ih =>
+    unfold paramNamesSteps
+    have := ih (nl + 1)
+    split
+    · omega
+    · split
+      · split <;> omega
+      · omega
+
+theorem handlerGlobalsSteps_le (d : Bytes) (off : Int) (k nl : Nat) : handlerGlobalsSteps d off k nl ≤ k := by
+  induction k generalizing nl with
+  | zero => simp [handlerGlobalsSteps]
+  | succ k ih =>
+    unfold handlerGlobalsSteps
+    have := ih (nl + 1)
+    split <;> omega
+
+/-- the name-table loops of one record run only if the record's declared bytes still fit: two bytes per round -/
+theorem tablesSteps_declared (ctx : Ctx) (d : Bytes) (idx : Int) (dc : Nat) (hdc : dc ≤ d.length) :
+    ∃ bl : Nat, 2 * tablesSteps ctx d idx dc + dc + bl ≤ d.length ∧
+      (∀ v, getSI 4 d (idx + 4) = .ok v → tablesSteps ctx d idx dc ≠ 0 → bl = v.toNat) := by
+  unfold tablesSteps
+  split
+  · rename_i nArg argOff nLocal localOff countC globOff bcLen _ _ _ _ _ _ hbl
+    have a := localNamesSteps_le ctx d localOff nLocal.toNat 0
+    have b := paramNamesSteps_le ctx d argOff nArg.toNat 0
+    have c := handlerGlobalsSteps_le d globOff countC.toNat 0
+    split
+    · exact ⟨0, by omega, by intro v _ h; exact absurd rfl h⟩
+    · refine ⟨bcLen.toNat, ?_, ?_⟩
+      · dsimp only
+        split
+        · omega
+        · split <;> omega
+      · intro v hv _
+        rw [hbl] at hv
+        cases hv; rfl
+  · exact ⟨0, by omega, by intro v _ h; exact absurd rfl h⟩
+
+
+/-- a record that was read: its loops' rounds and its bytecode are paid for by the bytes it adds to the running total -/
+theorem readFrb_declared {ctx : Ctx} {d : Bytes} {idx : Int} {dc : Nat} {r : FrbRec} (h : readFrb ctx d idx dc = .ok r) :
+    2 * tablesSteps ctx d idx dc + dc + r.bcLen.toNat ≤ r.declared ∧ r.declared ≤ d.length := by
+  unfold readFrb at h
+  obtain ⟨_, _, h⟩ := bind_ok h
+  obtain ⟨_, _, h⟩ := bind_ok h
+  obtain ⟨bcLen, hbl, h⟩ := bind_ok h
+  obtain ⟨_, _, h⟩ := bind_ok h
+  obtain ⟨nArg, hna, h⟩ := bind_ok h
+  obtain ⟨argOff, hao, h⟩ := bind_ok h
+  obtain ⟨nLocal, hnl, h⟩ := bind_ok h
+  obtain ⟨localOff, hlo, h⟩ := bind_ok h
+  obtain ⟨countC, hcc, h⟩ := bind_ok h
+  obtain ⟨globOff, hgo, h⟩ := bind_ok h
+  obtain ⟨_, _, h⟩ := bind_ok h
+  obtain ⟨_, _, h⟩ := bind_ok h
+  obtain ⟨_, _, h⟩ := bind_ok h
+  obtain ⟨_, _, h⟩ := bind_ok h
+  try simp only at h
+  split at h
+  · cases h
+  · rename_i hg
+    obtain ⟨locals, _, h⟩ := bind_ok h
+    obtain ⟨pm, _, h⟩ := bind_ok h
+    try simp only at h
+    obtain ⟨globals, _, h⟩ := bind_ok h
+    simp only [pure, Except.pure, Except.ok.injEq] at h
+    subst h
+    have a := localNamesSteps_le ctx d localOff nLocal.toNat 0
+    have b := paramNamesSteps_le ctx d argOff nArg.toNat 0
+    have c := handlerGlobalsSteps_le d globOff countC.toNat 0
+    unfold tablesSteps
+    simp only [hna, hao, hnl, hlo, hcc, hgo, hbl, hg, if_false]
+    refine ⟨?_, by omega⟩
+    split
+    · omega
+    · split <;> omega
+
+/-- one handler: rounds of its name-table loops (two bytes each) and of its opcode loop are within the bytes it declares -/
+theorem parseFuncS_declared (ctx : Ctx) (d : Bytes) (idx : Int) (fs : FrbState) (hfs : fs.declared ≤ d.length) :
+    (∀ fs', (parseFuncS ctx d idx fs).2 = .ok fs' →
+        2 * (parseFuncS ctx d idx fs).1.tables + (parseFuncS ctx d idx fs).1.opcodes + fs.declared ≤ fs'.declared ∧ fs'.declared ≤ d.length) ∧
+    2 * (parseFuncS ctx d idx fs).1.tables + (parseFuncS ctx d idx fs).1.opcodes + fs.declared ≤ d.length := by
+  unfold parseFuncS
+  split
+  · -- the record was not read
+    rename_i e he
+    obtain ⟨bl, hb, _⟩ := tablesSteps_declared ctx d idx fs.declared hfs
+    refine ⟨fun fs' h => (by cases h), ?_⟩
+    split <;> simp <;> omega
+  · rename_i r hr
+    have hd := readFrb_declared hr
+    have ho := opcodeLoopS_rounds_code { ctx with params := r.params, localVars := r.locals } d r.bcOff r.bcLen r.bcOff fs.regs
+      { bpc := fs.bpc, tell := fs.tell, gvars := r.globals }
+    have e : (r.bcLen - (r.bcOff - r.bcOff)).toNat = r.bcLen.toNat := by congr 1; omega
+    rw [e] at ho
+    dsimp only
+    split
+    · refine ⟨fun fs' h => (by cases h), ?_⟩
+      simp; omega
+    · split
+      · refine ⟨fun fs' h => (by cases h), ?_⟩
+        simp; omega
+      · split
+        · refine ⟨fun fs' h => (by cases h), ?_⟩
+          simp; omega
+        · refine ⟨fun fs' h => ?_, ?_⟩
+          · simp only [Except.ok.injEq] at h
+            subst h
+            simp; omega
+          · simp; omega
+
+/-- **all handlers together** (any declared record count, any offsets, overlapping or not): two bytes of data per round of a
+    name-table loop and one byte per instruction decoded — the repaired parse_frb is linear in the chunk length -/
+theorem parseFuncsS_declared (ctx : Ctx) (d : Bytes) (k : Nat) (idx : Int) (fs : FrbState) (hfs : fs.declared ≤ d.length) :
+    2 * (parseFuncsS ctx d k idx fs).tables + (parseFuncsS ctx d k idx fs).opcodes + fs.declared ≤ d.length := by
+  induction k generalizing idx fs with
+  | zero => simp [parseFuncsS]; exact hfs
+  | succ k ih =>
+    unfold parseFuncsS
+    have hp := parseFuncS_declared ctx d idx fs hfs
+    dsimp only
+    split
+    · exact hp.2
+    · rename_i fs' hok
+      have h1 := hp.1 fs' hok
+      have h2 := ih (idx + 42) fs' h1.2
+      simp only [Total.add_tables, Total.add_opcodes]
+      omega
+
+theorem lscr_handlers_linear (codec : Codec) (d : Bytes) (names : List Str) :
+    2 * (lscrStepsWith codec d names).tables + (lscrStepsWith codec d names).opcodes ≤ d.length := by
+  unfold lscrStepsWith
+  split
+  · simp
+  · rename_i h _
+    have hp : ∀ (ctx : Ctx) (bpc : Nat),
+        2 * (parseFuncsS ctx d h.frbN.toNat h.frbOff { bpc := bpc, tell := false, regs := [], funcs := [] }).tables +
+          (parseFuncsS ctx d h.frbN.toNat h.frbOff { bpc := bpc, tell := false, regs := [], funcs := [] }).opcodes ≤ d.length := by
+      intro ctx bpc
+      have := parseFuncsS_declared ctx d h.frbN.toNat h.frbOff { bpc := bpc, tell := false, regs := [], funcs := [] } (Nat.zero_le _)
+      simpa using this
+    dsimp only
+    split
+    · simp
+    · split
+      · simp
+      · split
+        · split <;> simp
+        · split
+          · split <;> split <;> simp
+          · split
+            · split <;> split <;> simp
+            · split <;> split <;> simp <;> exact hp _ _
 
 end Drx.Lscr.Steps
